@@ -2,6 +2,7 @@ package chk
 
 import (
 	"go/ast"
+	"go/constant"
 	"go/token"
 	"go/types"
 
@@ -17,7 +18,9 @@ type Block = cfg.Block
 type Graph struct {
 	nilUse      map[*ast.Ident]*[2]bool // nilAtUse cache (nil entry: being computed)
 	defCache    map[defKey]defVal
-	signFlags   map[types.Object]bool // found-index variables (-1 or non-negative), see boolFlags
+	signFlags   map[types.Object]bool           // found-index variables (-1 or non-negative), see boolFlags
+	eqFlags     map[types.Object]constant.Value // locals compared with one constant only: the flag is "equals that constant"
+	eqConst     map[types.Object]ast.Expr       // the constant as it is written in one of those comparisons
 	Fn          *Fn
 	C           *cfg.CFG
 	Blocks      []*cfg.Block // live blocks
